@@ -57,6 +57,14 @@ def main():
                 broken.append(dict(kind="proof-obligation", detail="%d theorems, %d assumption reports" % (pa["obligations"], pa["discharged"])))
     else:
         ctx.cov.update(obligations=1, discharged=0)
+    if ok and tier == "thorough":
+        # independent re-check of the compiled theorems (and everything they depend on) + axiom list
+        mods = " ".join("OBI." + p[:-2].replace("/", ".") for p in mod.PROPS)
+        rc, out, err, dt = vlib.sh("timeout 5400 coqchk -silent -o -Q theories OBI %s 2>&1" % mods, cwd=vlib.COQ, timeout=5500)
+        summ = out[out.find("CONTEXT SUMMARY"):][:1500] if "CONTEXT SUMMARY" in out else out[-1500:]
+        ctx.cov["coqchk"] = dict(rc=rc, wall_s=round(dt, 1), summary=summ)
+        if rc != 0:
+            broken.append(dict(kind="coqchk", detail=summ))
 
     # 2. harness from the current working tree
     vh, err = ctx.build_harness()
